@@ -62,6 +62,9 @@ func genContent(r *rng, pool *[][]byte) []byte {
 		// texty content
 		b = []byte(fmt.Sprintf("v%d\n", r.intn(1000)))
 	}
+	if r.chance(1, 6) {
+		b = append(b, 0, 0, 0) // NUL padding (what a stale comparison buffer holds)
+	}
 	*pool = append(*pool, b)
 	return b
 }
